@@ -2,4 +2,4 @@ From Coq Require Import Extraction ExtrOcamlBasic.
 From RB Require Import Base.Prelude Sig.Types Sig.Parser Wire.Value Wire.Unmarshal Wire.Ops.
 Extraction Language OCaml.
 Set Extraction Output Directory ".".
-Extraction "gen_model.ml" parse_description to_str erase op_marshal op_roundtrip op_unmarshal_t op_unmarshal_p op_validate ty_of.
+Extraction "gen_model.ml" parse_description to_str erase op_marshal op_roundtrip op_unmarshal_t op_unmarshal_p op_validate op_spec ty_of.
